@@ -316,7 +316,7 @@ def execute(plan):
                 evals += 1
                 events += len(res.events)
                 max_steps = max(max_steps, steps.count)
-                fdesc = json.dumps(f)
+                fdesc = json.dumps(f, sort_keys=True)      # (order independent: replay files are written with sorted keys)
                 if res.exc and res.exc.startswith("StepBudgetExceeded"):
                     vio.append(V("hang", "peltool %s on %s (%d bytes) exceeded the step budget: %s" % (cli, fdesc, len(bad), res.exc), f))
                     break
